@@ -343,6 +343,11 @@ int main(int argc, char **argv) {
         }
     }
     if (argc < 2) { fprintf(stderr, "usage: nanosim compile|run|replay ...\n"); return 2; }
+    {   /* libc looks the private test locale up through LOCPATH (see __wrap_setlocale); the harness itself stays in "C" */
+        extern int __real_setenv(const char *, const char *, int);
+        char exe[600]; ssize_t n = readlink("/proc/self/exe", exe, sizeof exe - 32);
+        if (n > 0) { exe[n] = 0; char *sl = strrchr(exe, '/'); if (sl) { strcpy(sl, "/locale"); __real_setenv("LOCPATH", exe, 1); } }
+    }
     signal(SIGPIPE, SIG_IGN);
     sim_shared = mmap(NULL, 4096, PROT_READ | PROT_WRITE, MAP_SHARED | MAP_ANONYMOUS, -1, 0);
     snprintf(asan_dir, sizeof asan_dir, "%s", __real_getenv("NANOSIM_TMP") ? __real_getenv("NANOSIM_TMP") : "/verif/build/tmp");
